@@ -51,6 +51,7 @@ def prepare(fmt, n, seed, S=None):
     if key in _PREP:
         return _PREP[key]
     boot.urandom.reset(seed, b"c14-prep")
+    ms.reset_clock()
     cs = {j: pattern(10 * seed + j, 24 + j) for j in (1, 2, 3, 4)}
     cs["3x"] = pattern(10 * seed + 8, 26)
     g = grid.Grid(S, client_kw=dict(k=K, n=n, happy=1))
@@ -217,6 +218,7 @@ def _execute(case, prefix, seed):
     si = prep["si"]
     ch = grid.Chooser(prefix)
     boot.urandom.reset(seed, b"c14-exec")
+    ms.reset_clock()
     g = grid.Grid(S, nclients=2, chooser=ch, client_kw=dict(k=K, n=n, happy=1))
     viol, obs = [], {}
     ms.bound_pending(g)
@@ -401,12 +403,13 @@ def run(tier, seed):
     res = common.Result()
     desc = []
     if tier == "quick":
-        plan = [("SDMF", 3, STATES + ["sigfield", "short"], ("noforce", "force", "car"), 0), ("MDMF", 3, STATES, ("noforce", "force"), 0),
-                ("SDMF", 3, STATES + ["short"], ("noforce@async",), 0), ("SDMF", 3, ["v3", "v2", "v3x", "v4", "missing", "badblock"], ("noforce+extra", "force+extra"), 0),
+        plan = [("SDMF", 3, STATES + ["short"], ("noforce@async",), 0),
+                ("SDMF", 3, STATES + ["sigfield", "short"], ("noforce", "force", "car"), 0), ("MDMF", 3, STATES, ("noforce", "force"), 0),
+                ("SDMF", 3, ["v3", "v2", "v3x", "v4", "missing", "badblock"], ("noforce+extra", "force+extra"), 0),
                 ("SDMF", 4, [s for s in STATES if s != "badsig"], ("noforce",), 0), ("MDMF", 4, ["v3", "v2", "v3x", "v4", "missing"], ("force",), 0)]
     else:
-        plan = [(f, 3, STATES + ["sigfield", "short", "badprivkey"], ("noforce", "force", "car"), 1) for f in ("SDMF", "MDMF")]
-        plan += [(f, 3, STATES + ["short", "badprivkey"], ("noforce@async", "car@async"), 0) for f in ("SDMF", "MDMF")]
+        plan = [(f, 3, STATES + ["short", "badprivkey"], ("noforce@async", "car@async"), 0) for f in ("SDMF", "MDMF")]
+        plan += [(f, 3, STATES + ["sigfield", "short", "badprivkey"], ("noforce", "force", "car"), 1) for f in ("SDMF", "MDMF")]
         plan += [(f, 4, STATES, ("noforce", "force", "car"), 0) for f in ("SDMF", "MDMF")]
         plan += [(f, 3, STATES, ("noforce+extra", "force+extra", "car+extra"), 0) for f in ("SDMF", "MDMF")]
     for d in sorted(set(p[4] for p in plan)):
